@@ -34,8 +34,26 @@ static ARENA_NEXT: AtomicUsize = AtomicUsize::new(0);
 
 pub struct Hv;
 
-#[global_allocator]
+// Under Miri the interpreter's own allocator stays in place: it checks every deallocation against
+// the layout of the allocation (a forwarding allocator would hide that behind malloc/free).
+#[cfg_attr(not(miri), global_allocator)]
 pub static GLOBAL: Hv = Hv;
+
+/// Side table for the guard arena: layout of the block that starts in each arena page (blocks never
+/// share a data area). `dealloc` / `realloc` with another layout than the allocation's is a violation
+/// of the allocator contract that malloc/free would swallow silently; it ends the child with 71.
+static LAYOUT_TABLE: AtomicUsize = AtomicUsize::new(0);
+pub const EXIT_BAD_LAYOUT: i32 = 71;
+
+#[inline]
+fn layout_word(layout: Layout) -> u64 {
+    (layout.size() as u64 & ((1 << 56) - 1)) | ((layout.align().trailing_zeros() as u64) << 56)
+}
+
+unsafe fn layout_slot(data_start: usize) -> *mut u64 {
+    let t = LAYOUT_TABLE.load(Relaxed);
+    (t as *mut u64).add((data_start - ARENA_BASE.load(Relaxed)) / PAGE)
+}
 
 pub fn arena_init() {
     if ARENA_BASE.load(Relaxed) != 0 {
@@ -53,6 +71,18 @@ pub fn arena_init() {
         if p == libc::MAP_FAILED {
             libc::abort();
         }
+        let t = libc::mmap(
+            std::ptr::null_mut(),
+            ARENA_BYTES / PAGE * 8,
+            libc::PROT_READ | libc::PROT_WRITE,
+            libc::MAP_PRIVATE | libc::MAP_ANONYMOUS | libc::MAP_NORESERVE,
+            -1,
+            0,
+        );
+        if t == libc::MAP_FAILED {
+            libc::abort();
+        }
+        LAYOUT_TABLE.store(t as usize, Relaxed);
         ARENA_BASE.store(p as usize, Relaxed);
         ARENA_NEXT.store(p as usize, Relaxed);
     }
@@ -82,6 +112,7 @@ unsafe fn guard_alloc(layout: Layout, left: bool) -> *mut u8 {
         return std::ptr::null_mut();
     }
     GUARD_ALLOCS.fetch_add(1, Relaxed);
+    *layout_slot(data_start) = layout_word(layout);
     if left {
         data_start as *mut u8
     } else {
@@ -92,6 +123,29 @@ unsafe fn guard_alloc(layout: Layout, left: bool) -> *mut u8 {
 }
 
 unsafe fn guard_free(ptr: *mut u8, layout: Layout) {
+    // The block's data area is the run of accessible pages around ptr; its first page is the one
+    // after the preceding guard page. Find it from the recorded layouts: walk down from ptr's page
+    // to the nearest page with an entry (blocks are at most a few pages from their data start).
+    {
+        let base = ARENA_BASE.load(Relaxed);
+        let mut page = (ptr as usize - base) / PAGE;
+        let t = LAYOUT_TABLE.load(Relaxed) as *mut u64;
+        let mut steps = 0usize;
+        while *t.add(page) == 0 && page > 0 && steps < (1 << 22) {
+            page -= 1;
+            steps += 1;
+        }
+        let rec = *t.add(page);
+        if rec != layout_word(layout) {
+            let sh = crate::sys::shared();
+            sh.fault_addr = ptr as u64;
+            sh.fault_seen = 3;
+            sh.scratch[13] = rec;
+            sh.scratch[12] = layout_word(layout);
+            libc::_exit(EXIT_BAD_LAYOUT);
+        }
+        *t.add(page) = 0;
+    }
     // Both placements satisfy: end of data area == round_up(ptr + n, PAGE) (align <= PAGE).
     let n = layout.size().max(1);
     let data = round_up(n, PAGE).max(round_up(layout.align(), PAGE));
@@ -227,4 +281,11 @@ pub fn install_fault_handler() {
         libc::sigaction(libc::SIGSEGV, &sa, std::ptr::null_mut());
         libc::sigaction(libc::SIGBUS, &sa, std::ptr::null_mut());
     }
+}
+
+/// Text for a child that ended with EXIT_BAD_LAYOUT.
+pub fn bad_layout_text() -> String {
+    let sh = crate::sys::shared();
+    let d = |w: u64| format!("size {} align {}", w & ((1 << 56) - 1), 1u64 << (w >> 56));
+    format!("block at {:#x} allocated with {} was deallocated / reallocated as {}", sh.fault_addr, d(sh.scratch[13]), d(sh.scratch[12]))
 }
